@@ -40,6 +40,7 @@ func runC04(r *an.Run) {
 	memoDependencies(r, "R11-failure-memo-sees-every-binding")
 	c04AssociationByPosition(r)
 	matcherNumericConditions(r, "R13-length-decisions-on-measured-lengths")
+	slotIsTheRecordedSlot(r, "R14-a-rewrite-lands-in-the-slot-it-matched")
 }
 
 const tokIDENT = 4
